@@ -1,10 +1,12 @@
 import Driver.Io
 import Driver.GetData
 import Driver.Dns
+import Driver.Uptime
 
 def main (args : List String) : IO UInt32 := do
   match args with
   | ["io"] => Driver.IoDrv.main; return 0
   | ["getdata"] => Driver.GetDataDrv.main; return 0
   | ["dns"] => Driver.DnsDrv.main; return 0
+  | ["uptime"] => Driver.UptimeDrv.main; return 0
   | _ => IO.eprintln "usage: svdrv <subsystem>"; return 2
